@@ -234,11 +234,18 @@ def run(R):
     # HIT: returns the stored task unless running; the running path returns a fresh task
     rets = [n for n in cfg.nodes if n.kind == "stmt" and isinstance(n.ast, ast.Return) and n.ast.value is not None]
 
+    # (the flag may be read into a local first: `is_executing = task.running`)
+    run_locals = set()
+    for nm_ in set(t_.id for a_ in ast.walk(asy.node) if isinstance(a_, ast.Assign) for t_ in a_.targets if isinstance(t_, ast.Name)):
+        vals_ = common.assigned_values(asy.node, nm_)
+        if vals_ and all(k_ == "expr" and isinstance(v_, ast.Attribute) and v_.attr == "running" and isinstance(v_.value, ast.Name) and v_.value.id in looked for k_, v_ in vals_):
+            run_locals.add(nm_)
+
     def running(nd, want):
         if nd.kind != "test":
             return None
         k, s, pos = q.atom_test(nd.ast)
-        if k == "truth" and s.endswith(".running") and s.split(".")[0] in looked:
+        if k == "truth" and isinstance(s, str) and ((s.endswith(".running") and s.split(".")[0] in looked) or s in run_locals):
             return ("T" if pos else "F") if want else ("F" if pos else "T")
         return None
     rtests = [n for n in cfg.nodes if running(n, True) is not None]
